@@ -179,6 +179,9 @@ structure Env where
   beh : Nat → MigStep
   cancelAt : Nat
   crashAt : Nat
+  /-- `failAt = k > 0`: the runner write that would be tick `k` fails (disk full, I/O error): nothing
+  is written and the error is returned (all three write sites of the runner return it). -/
+  failAt : Nat
 
 inductive Event
   | metaWrite (m : Meta)
@@ -189,7 +192,7 @@ inductive Event
   | apply (i : Nat)
   deriving Repr, DecidableEq
 
-inductive Result | ok | cancelled | errBefore | errMigrate | crashed
+inductive Result | ok | cancelled | errBefore | errMigrate | errWrite | crashed
   deriving Repr, DecidableEq
 
 structure RunSt where
@@ -201,6 +204,8 @@ structure RunSt where
 def RunSt.dead (env : Env) (s : RunSt) : Bool := env.crashAt ≤ s.tick
 def RunSt.cancelled (env : Env) (s : RunSt) : Bool := env.cancelAt ≤ s.tick
 def RunSt.tickEv (s : RunSt) (e : Event) : RunSt := { s with tick := s.tick + 1, log := e :: s.log }
+/-- The write the runner is about to make (it would be tick `s.tick + 1`) fails. -/
+def RunSt.writeFails (env : Env) (s : RunSt) : Bool := env.failAt == s.tick + 1
 
 /-- `runMigration`. `none` = returned nil (go on with the next pending migration). -/
 def runMigration (cfg : Cfg) (env : Env) (last : SV) (i : Nat) (s : RunSt) : RunSt × Option Result :=
@@ -223,11 +228,13 @@ def runMigration (cfg : Cfg) (env : Env) (last : SV) (i : Nat) (s : RunSt) : Run
   match b.st with
   | some st =>
     -- WriteIntermediateState; return ctx.Err()
+    if s.writeFails env then ({ s with tick := s.tick + 1 }, some .errWrite) else
     let s := { s.tickEv (.save i st) with disk := s.disk.setIst i (some st) }
     (s, if s.cancelled env then some .cancelled else none)
   | none =>
     if b.err != .none && !cfg.markOnNilCtx then (s, some .errMigrate) else
     -- CurrentVersion.Set(i); batch { WriteSchemaMetadata; DeleteIntermediateState }; Write
+    if s.writeFails env then ({ s with tick := s.tick + 1 }, some .errWrite) else
     let cur := SV.set s.cur i
     let s := { s.tickEv (.apply i) with
                 cur := cur, disk := { (s.disk.setIst i none) with md := some ⟨cur, last⟩ } }
@@ -251,6 +258,7 @@ def run (cfg : Cfg) (reg : Registry) (env : Env) (d : Disk) : RunSt × Result :=
   let s : RunSt := ⟨d, m.cur, 0, []⟩
   -- mr.metadata.LastTargetVersion = mr.targetVersion; WriteSchemaMetadata
   if s.dead env then (s, .crashed) else
+  if s.writeFails env then (s, .errWrite) else
   let s := { s.tickEv (.metaWrite ⟨m.cur, target⟩) with disk := { d with md := some ⟨m.cur, target⟩ } }
   if s.dead env then (s, .crashed) else
   let pending := SV.diff target m.cur
